@@ -7,6 +7,24 @@ def rd(p):
     return open(os.path.join(V, p)).read() if os.path.exists(os.path.join(V, p)) else ""
 out = []
 out.append(rd("design_status.md"))
+# measured inventory
+import subprocess
+def wc(pattern):
+    n = 0; k = 0
+    for f in glob.glob(os.path.join(V, pattern), recursive=True):
+        k += 1; n += sum(1 for _ in open(f, errors="replace"))
+    return k, n
+k_tla, n_tla = wc("spec/**/*.tla"); k_go, n_go = wc("harness/**/*.go"); k_py, n_py = wc("checks/*.py")
+kf_all = json.load(open(os.path.join(V, "known_findings.json"))).get("findings", [])
+seeded = [json.load(open(p)) for p in glob.glob(os.path.join(V, "seeded", "*", "meta.json"))]
+det = sum(1 for m in seeded if any(v.get("rc") == 1 for v in m.get("detected_by", {}).values()))
+out.append("\n## Inventory (measured when this file was generated)\n\n"
+           "* %d TLA+ modules, %d lines; %d Go driver files, %d lines; %d check scripts, %d lines.\n"
+           "* %d defects recorded: %d repaired with `fix:` commits, %d open (guarded deviations).\n"
+           "* %d seeded changes kept (written by sub-agents that saw only the property text, confirmed by `tools/mutant.py confirm`): "
+           "%d detected by a quick tier (Part IV lists which check caught which; changes first missed and the strengthening they caused are in the per-property notes).\n"
+           % (k_tla, n_tla, k_go, n_go, k_py, n_py, len(kf_all), sum(1 for e in kf_all if e.get("status") == "fixed"),
+              sum(1 for e in kf_all if e.get("status") == "open"), len(seeded), det))
 out.append("\n\n---------------------------------------------------------------------------------------------\n\n# Part I — the plan written before the code (round 0)\n\n")
 plan = rd("design_plan.md")
 plan = re.sub(r"^# DESIGN[^\n]*\n", "", plan, count=1)
